@@ -27,6 +27,10 @@ def trees_of(name, tier):
     if name == "wide":
         row = lambda s: ("<start>", (("<row>", tuple(("<c>", ((ch, ()),)) for ch in s)),))
         return [row("x" * 31 + "y"), row("x" * 32), row("y" + "x" * 31), row("x" * 28 + "yxxx")]
+    if name == "wide2":
+        cell = lambda kv: ("<c>", (("<p>", (("<k>", ((kv[0], ()),)), ("=", ()), ("<v>", ((kv[1], ()),)))),))
+        row = lambda cells: ("<start>", (("<row>", tuple(cell(c) for c in cells)),))
+        return [row(["a0"] * 30), row(["a0"] * 29 + ["b1"]), row(["b1"] + ["a0"] * 29), row(["a0"] * 27 + ["b0", "a1", "a0"]), row(["b1"] * 27 + ["a1", "b0", "b1"])]
     d, n = TREE_BOUNDS[name][tier]
     ts = closed_trees(cg, "<start>", d, max_nodes=n)
     if name == "null":
